@@ -230,3 +230,35 @@ Proof.
     try (apply nethttp_each_once_in_order; exact H);
     try (apply seq_each_once_in_order; exact H).
 Qed.
+
+(** * Histories of requests on one mounted server *)
+Lemma serve_first fw ftl ms strict :
+  snd (serve fw ftl strict (indexed ms)) = request_trace fw ftl ms strict.
+Proof. unfold serve, request_trace, nethttp_chain, inner_of. destruct fw; reflexivity. Qed.
+
+Lemma serve_keeps_state fw ftl strict s : fst (serve fw ftl strict s) = s.
+Proof. reflexivity. Qed.
+
+Lemma serve_n_repeat fw ftl strict s : forall n,
+  serve_n (serve fw ftl strict) s n = repeat (snd (serve fw ftl strict s)) n.
+Proof. induction n as [|n IH]; [reflexivity|]. cbn [serve_n repeat]. rewrite serve_keeps_state, IH. reflexivity. Qed.
+
+Lemma nth_repeat_last {A} (x d : A) : forall k, nth k (repeat x (S k)) d = x.
+Proof. induction k as [|k IH]; [reflexivity|]. cbn [repeat nth] in *. exact IH. Qed.
+
+(** Every request a mounted server serves leaves the trace of the first one: the n-th request is treated as the first. *)
+Theorem every_request_like_the_first fw ftl ms strict k :
+  nth_request fw ftl ms strict k = request_trace fw ftl ms strict.
+Proof. unfold nth_request. rewrite serve_n_repeat, nth_repeat_last. apply serve_first. Qed.
+
+(** ... and the whole history of n requests is n copies of that trace. *)
+Theorem history_is_constant fw ftl ms strict n :
+  serve_n (serve fw ftl strict) (indexed ms) n = repeat (request_trace fw ftl ms strict) n.
+Proof. rewrite serve_n_repeat, serve_first. reflexivity. Qed.
+
+(** A wrapper that reverses its slice in place (instead of iterating it backwards) serves the first request as
+    documented and the second one in the opposite order. *)
+Theorem reversing_in_place_refuted :
+  serve_n (serve_reversing true None) (indexed [Pass; Pass]) 3 =
+  [[EMw 0; EMw 1; EHandler]; [EMw 1; EMw 0; EHandler]; [EMw 0; EMw 1; EHandler]].
+Proof. vm_compute. reflexivity. Qed.
